@@ -35,8 +35,17 @@ type c20op struct {
 }
 
 type c20case struct {
-	Scopes int     `json:"scopes"`
-	Ops    []c20op `json:"ops"`
+	Scopes int `json:"scopes"`
+	// Read selects how the monitor reads a scope after every step. Counter.Value instantiates
+	// the counter in the scope it reads, so reading the scopes under test directly after every
+	// step means that no later operation ever meets a scope without an instance:
+	//   direct - Counter.Value on the scope itself (what a user does), after every step
+	//   copy   - Counter.Value on a fresh scope Reset to the scope under test
+	//   gob    - Counter.Value on a gob round trip of the scope under test
+	//   end    - nothing until the end of the history
+	// Every mode finishes with a direct read of every scope.
+	Read string  `json:"read"`
+	Ops  []c20op `json:"ops"`
 }
 
 func runC20laws(t *vf.T, c c20case) {
@@ -45,11 +54,31 @@ func runC20laws(t *vf.T, c c20case) {
 	for i := range scopes {
 		scopes[i] = new(metrics.Scope)
 	}
-	check := func(after string, step int) bool {
+	check := func(after string, step int, mode string) bool {
+		if mode == "end" {
+			return true
+		}
 		for i, s := range scopes {
+			view := s
+			switch mode {
+			case "copy":
+				view = new(metrics.Scope)
+				view.Reset(s)
+			case "gob":
+				var b bytes.Buffer
+				view = new(metrics.Scope)
+				if err := gob.NewEncoder(&b).Encode(s); err != nil {
+					t.Violate("laws gob-encode", err.Error())
+					return false
+				}
+				if err := gob.NewDecoder(&b).Decode(view); err != nil {
+					t.Violate("laws gob-decode", err.Error())
+					return false
+				}
+			}
 			for ci, ctr := range verifCounters {
-				if got := ctr.Value(s); got != model[i][ci] {
-					t.Violate("laws op="+after, fmt.Sprintf("after step %d (%s): scope %d counter %d reports %d, the model says %d; ops=%v", step, after, i, ci, got, model[i][ci], c.Ops[:step+1]))
+				if got := ctr.Value(view); got != model[i][ci] {
+					t.Violate("laws op="+after, fmt.Sprintf("after step %d (%s, read=%s): scope %d counter %d reports %d, the model says %d; ops=%v", step, after, mode, i, ci, got, model[i][ci], c.Ops[:step+1]))
 					return false
 				}
 			}
@@ -113,10 +142,14 @@ func runC20laws(t *vf.T, c c20case) {
 		case "read":
 		}
 		t.Count("law_op_"+op.Op, 1)
-		if !check(op.Op, step) {
+		if !check(op.Op, step, c.Read) {
 			return
 		}
 	}
+	if len(c.Ops) > 0 && !check("end-of-history", len(c.Ops)-1, "direct") {
+		return
+	}
+	t.Count("law_histories_read_"+c.Read, 1)
 	if combined >= 1 {
 		t.Nontrivial("")
 	}
@@ -130,11 +163,12 @@ func runC20(r *vf.Runner) {
 	}
 	names := []string{"incr", "incr", "incr", "merge", "merge", "reset", "resetnil", "gob", "read", "conc"}
 	for i := 0; i < n; i++ {
-		c := c20case{Scopes: 1 + rnd.Intn(6)}
+		c := c20case{Scopes: 1 + rnd.Intn(6), Read: []string{"direct", "copy", "gob", "end"}[i%4]}
 		for j, k := 0, 1+rnd.Intn(50); j < k; j++ {
 			c.Ops = append(c.Ops, c20op{Op: names[rnd.Intn(len(names))], S: rnd.Intn(6), U: rnd.Intn(6), C: rnd.Intn(nCounters), N: int64(rnd.Intn(2000)) - 500})
 		}
 		r.Case(c, func(t *vf.T) { runC20laws(t, c) })
 	}
 	runC20e2e(r)
+	runC20chains(r)
 }
